@@ -51,6 +51,30 @@ CLAIMS = {
          "shutdown protocol (Add before go, deferred Done, close after Wait in its own goroutine, drain not behind Wait, pending connections closed, Accept reports net.ErrClosed); the delivered value reads through the layer4 "
          "connection; nothing is handed off after a terminal route on any explored path. Blocking while the consumer is slow is by design and not decided.",
          "DESIGN.md section 4 C13"),
+ "C03": ("finite-predicate path evaluation of proxy()/Handle/dialPeers with goroutine and deferred bodies evaluated in place",
+         "Decided over every outcome of dialing, header writing, half-close support and retry: the tee chain, one copy-back per upstream and the pump over the complete upstream set; CloseWrite/Close on every upstream after the client "
+         "finished and CloseWrite on the client after the upstreams finished; the WaitGroup/channel join before return and that the pump's signal cannot block ahead of the half-close; cleanup closes every dialed connection, "
+         "dialPeers leaks none on any failure path; prefetched bytes are handed on exactly once (Wrap/Read tables). Byte-exactness for all payloads and timings is not decided.",
+         "DESIGN.md section 4 C03"),
+ "C10": ("finite-predicate path evaluation of every selection policy over pools of 0..3 upstreams and all availability/count/random outcomes; truth table of available()",
+         "Decided exhaustively within the bound: a policy only returns an upstream that available() accepted on that path, never dereferences an empty slot, returns nil when none is available and (first, random, least_conn) some "
+         "upstream when one is; first picks the earliest, least_conn a minimal one; available = healthy and not full with every peer consulted; round_robin advances its counter per probe; ip_hash hashes only upstream and client. "
+         "random_choose's must-return clause and distributions are not claimed.",
+         "DESIGN.md section 4 C10"),
+ "C11": ("pairing/path rules over go/ssa, who-may-write census of the counters, path evaluation of the retry loop and of healthy/full/available",
+         "Decided: every remembered failure (+1) starts a goroutine that cannot end without the -1 on the same peer after waiting; counters are written only by their atomic add/CAS in countFail/countConn/setHealthy; "
+         "the retry loop re-selects only after tryAgain()==true and gives up with the last error; on success each peer is counted +1, and -1 in the deferred cleanup together with closing every connection; active-check polarity; "
+         "the availability predicates consult every peer. The timing of the failure window is not decided.",
+         "DESIGN.md section 4 C11"),
+ "C12": ("finite-predicate path evaluation of the proxy_protocol handler, allow list, tidyRules and dialPeers; constant/dominance rules for the version table",
+         "Decided over every outcome: untrusted peers pass through untouched, parse errors stop the chain, accepted headers publish the parsed conn under the key GetConn reads and hand on Wrap(conn); Wrap hands no unread bytes on; "
+         "each upstream gets exactly one header of the provisioned version built from GetConn(down) before relaying; the version comes from the placeholder-resolved option; allow-list semantics incl. non-IP peers; tidyRules loses no rule. "
+         "Header bytes themselves are the third-party library's.",
+         "DESIGN.md section 4 C12"),
+ "C17": ("finite-predicate path evaluation of throttledConn.Read and Handle over limiter presence, burst orderings and wait outcomes",
+         "Decided for all orderings of len(p) and the bursts: batch = min(len(p), bursts), every present limiter is asked for exactly the batch before the single underlying read of exactly p[:batch], a failed wait reads nothing, "
+         "results pass through; Handle wraps the previous cx.Conn with the handler-wide limiter always and a fresh local limiter iff configured, honours latency and cancellation. The numeric bound itself relies on x/time/rate.",
+         "DESIGN.md section 4 C17"),
 }
 
 checks = []
